@@ -239,6 +239,31 @@ def check_ctor(ctx: Ctx, i: int, rng) -> None:
     ctx.case(f'ctor:{bad}:{tree}', True)
 
 
+def check_diag_stretch(ctx: Ctx, i: int, rng) -> None:
+    """a letter REPEATED in the block term whose two axes have sizes 1 and n: jnp.einsum stretches the size-1 axis
+    (numpy.einsum refuses the operand), and the operator with rewritten subscripts is then not the transpose although
+    every shape fits (known finding F20)"""
+    from furax._base.dense import DenseBlockDiagonalOperator as Dense
+    subs, bshape, xshape = [('iij,j->i', (1, 3, 2), (2,)), ('iji,j->i', (1, 2, 3), (2,)), ('iij,j->i', (3, 1, 2), (2,)),
+                            ('iji,j->i', (3, 2, 1), (2,))][i % 4]
+    blocks = np.array([rng.randint(1, 4) for _ in range(int(np.prod(bshape)))], dtype=np.float64).reshape(bshape)
+    cfg = {'subscripts': subs, 'blocks_shape': bshape, 'leaf_shape': xshape}
+    st, op = safe(lambda: Dense(jnp.asarray(blocks, dtype=jnp.float32), jax.ShapeDtypeStruct(xshape, jnp.float32), subs))
+    if st == 'ok':
+        stm, m = safe(gen.dense, op)
+        stt, t = safe(lambda: op.T)
+        if stm == 'ok' and stt == 'ok':
+            st2, mt = safe(gen.dense, t)
+            if st2 == 'ok' and (mt.shape != m.T.shape or not np.array_equal(mt, m.T)):
+                ctx.fail('diagstretch', i, 'einsum-transpose-not-adjoint:stretched-diagonal',
+                         f'{subs!r} with blocks {bshape}: jnp.einsum stretches the size-1 axis of the repeated letter; dense(op.T) is '
+                         f'not dense(op).T', cfg)
+        ctx.count('diagstretch:' + ('accepted' if stm == 'ok' else 'refused-at-application'))
+    else:
+        ctx.count('diagstretch:refused')
+    ctx.case(f'diagstretch:{subs}:{bshape}', True, sample=cfg)
+
+
 MALFORMED = ['ij', 'ij,j', 'ij,j,k->i', 'ij->i', 'ij,j->i->k', ',->', 'ij,j->', 'ij,,j->i', '->ij,j']
 
 
@@ -271,6 +296,9 @@ def run(ctx: Ctx) -> None:
     for i in range(120 if ctx.tier == 'quick' else 600):
         if ctx.want('pytree', i):
             check_pytree(ctx, i, ctx.rng('pytree', i))
+    for i in range(4):
+        if ctx.want('diagstretch', i):
+            check_diag_stretch(ctx, i, ctx.rng('diagstretch', i))
     for i in range(8):
         if ctx.want('ctor', i):
             check_ctor(ctx, i, ctx.rng('ctor', i))
